@@ -70,7 +70,9 @@ pub fn format_dividend(
 
 /// Format a comment line
 pub fn format_comment(text: &str) -> String {
-    format!("# {}", text)
+    // A comment must stay on one line: a line break in broker free text would otherwise
+    // end the comment and turn the rest into DSL input.
+    format!("# {}", text.replace(['\r', '\n'], " "))
 }
 
 /// Generate header comments for a converted file
